@@ -87,6 +87,18 @@ def inject(cfg, fault):
         cfg['instructions']['ld']['operands']['count'] = 2
     elif fault == 'unknown_operand_set':
         cfg['instructions']['ld']['operands']['operand_sets']['list'] = ['nosuchset']
+    elif fault == 'count_zero_with_list':
+        cfg['instructions']['ld']['operands']['count'] = 0
+    elif fault == 'count_zero_unknown_set':
+        cfg['instructions']['ld']['operands'] = {'count': 0, 'operand_sets': {'list': ['nosuchset']}}
+    elif fault == 'count_smaller_than_list':
+        cfg['instructions']['ld']['operands'] = {'count': 1, 'operand_sets': {'list': ['imm8', 'imm8']}}
+    elif fault == 'variant_count_mismatch':
+        cfg['instructions']['ld']['variants'] = [{'bytecode': {'value': 77, 'size': 8}, 'operands': {'count': 2, 'operand_sets': {'list': ['imm8']}}}]
+    elif fault == 'variant_count_zero_with_list':
+        cfg['instructions']['ld']['variants'] = [{'bytecode': {'value': 77, 'size': 8}, 'operands': {'count': 0, 'operand_sets': {'list': ['imm8']}}}]
+    elif fault == 'variant_unknown_operand_set':
+        cfg['instructions']['ld']['variants'] = [{'bytecode': {'value': 77, 'size': 8}, 'operands': {'count': 1, 'operand_sets': {'list': ['nosuchset']}}}]
     elif fault == 'macro_keyword':
         cfg.setdefault('macros', {})['zero'] = [{'instructions': ['nop']}]
     elif fault == 'macro_same_as_instruction':
@@ -117,7 +129,7 @@ def build(e):
         cfg['general']['min_version'] = vtext(s['v'])
     else:
         cfg['general']['identifier'] = {'name': 'genisa', 'version': vtext(s['iv'])}
-        lang = 'genisa' if s['name'] else 'otherisa'
+        lang = {'same': 'genisa', 'other': 'otherisa', 'prefix': 'gen', 'suffix': 'isa', 'infix': 'enis', 'longer': 'genisa2', 'empty': ''}[s['name']]
         req = f'#require "{lang} {s["op"]} {vtext(s["v"])}"' if s['op'] else f'#require "{lang}"'
         src = req + '\n' + src
     text = json.dumps(cfg, indent=1) if name.endswith('.json') else isagen.dump(cfg)
